@@ -26,7 +26,11 @@ var (
 
 func c16BindIP() net.IP {
 	c16IPOnce.Do(func() {
+		// testutil reports retries on os.Stdout, which in exec mode is the trace
+		old := os.Stdout
+		os.Stdout = os.Stderr
 		ip, _ := testutil.TakeIP() // kept for the life of the process
+		os.Stdout = old
 		c16IP = ip
 	})
 	return c16IP
@@ -117,7 +121,15 @@ func c16Start(snapshot, ucoal, mcoal bool) (*c16Node, error) {
 		conf.UserQuiescentPeriod = 4 * time.Millisecond
 	}
 	if snapshot {
-		d, err := os.MkdirTemp("", "verif-c16-")
+		// the snapshotter fsyncs on shutdown; a memory-backed directory keeps that cheap
+		base := ""
+		if st, err := os.Stat("/dev/shm"); err == nil && st.IsDir() {
+			base = "/dev/shm"
+		}
+		d, err := os.MkdirTemp(base, "verif-c16-")
+		if err != nil {
+			d, err = os.MkdirTemp("", "verif-c16-")
+		}
 		if err != nil {
 			return nil, err
 		}
@@ -461,7 +473,7 @@ func c16Gen(rng *rand.Rand, tier string) []Case {
 			"join " + a + " 4", "update " + a + " 5", "update " + a + " 6", "wait", "end"}, true, "directed-flap")
 	}
 	// random histories
-	nr := 12
+	nr := 10
 	if tier == "thorough" {
 		nr = 120
 	}
